@@ -1,13 +1,31 @@
 #!/bin/bash
-# run_seed.sh <seed-id> <property> [quick|thorough]  : apply a seeded change to /repo, run the check, undo it.
+# run_seed.sh <seed-id|path/to/patch.diff> <property> [quick|thorough]
+# Build the harness against /repo with a seeded change applied, undo the change at once, and run the
+# check's workload with that seeded binary. /repo carries the change only while the build lock is held,
+# so concurrently running checks (which build under the same lock) never see it.
 set -u
 ID=$1; PROP=$2; TIER=${3:-quick}
-cd /repo || exit 2
-[ -z "$(git status --porcelain)" ] || { echo "/repo not clean"; exit 2; }
-git apply /verif/seeded/$ID/patch.diff || exit 2
-/verif/check $PROP $TIER > /tmp/wt/seedrun_${ID}_$PROP.log 2>&1; rc=$?
-git checkout -- . ; git status --porcelain | head -3
-grep -E "^VIOLATION|^KNOWN|violation oracle|HARNESS|$PROP $TIER" /tmp/wt/seedrun_${ID}_$PROP.log | sort | uniq -c | sort -rn | head -12
+PATCH=/verif/seeded/$ID/patch.diff; [ -f "$ID" ] && PATCH=$(readlink -f "$ID")
+NAME=$(basename $(dirname $PATCH))_$(basename $PATCH .diff)
+H=/verif/harness; mkdir -p $H/target /tmp/wt
+SB=$H/target/vh-seeded-$$
+export CARGO_NET_OFFLINE=true
+(
+  flock 9
+  cd /repo || exit 2
+  [ -z "$(git status --porcelain)" ] || { echo "/repo not clean"; exit 2; }
+  git apply $PATCH || exit 2
+  (cd $H && cargo build --release --offline --features hooks > $H/target/build-seeded.log 2>&1); rc=$?
+  [ $rc -eq 0 ] && cp $H/target/release/vh $SB
+  git checkout -- .
+  # restore the clean binary before anybody else can run it
+  (cd $H && cargo build --release --offline --features hooks > /dev/null 2>&1)
+  exit $rc
+) 9>$H/target/.build.lock
+[ $? -eq 0 ] || { echo "seeded build failed (see $H/target/build-seeded.log)"; tail -5 $H/target/build-seeded.log; exit 2; }
+LOG=/tmp/wt/seedrun_${NAME}_$PROP.log
+# evidence and replays of a seeded run must not overwrite the real ones
+VH_EVIDENCE_DIR=/tmp/wt/seed-evidence $SB run $PROP $TIER > $LOG 2>&1; rc=$?
+rm -f $SB
+grep -E "^VIOLATION|^KNOWN|violation oracle|HARNESS|$PROP $TIER" $LOG | sort | uniq -c | sort -rn | head -12
 echo "exit=$rc"
-# restore the harness build to the clean tree
-/verif/check $PROP quick >/dev/null 2>&1
